@@ -9,12 +9,13 @@ Open Scope Z_scope.
    every validator (accepting, rejecting, converting) and every start state. *)
 Theorem law_holds_on_every_history :
   forall (vld : Z -> option Z) (ops : list op) (s : list Z) (i : Z),
+    forallb not_detached ops = true ->
     law_hist vld i s (run vld s ops) = [].
 Proof. exact run_law. Qed.
 Print Assumptions law_holds_on_every_history.
 
 Theorem refines_builtin_set :
-  forall (vld : Z -> option Z) (s : list Z) (o : op),
+  forall (vld : Z -> option Z) (s : list Z) (o : op), not_detached o = true ->
     let ob := step vld s o in
     let '(bo, ba) := builtin vld s o (o_ret ob) in
     o_out ob = bo /\ (forall x, mem x (o_after ob) = mem x ba).
@@ -22,7 +23,7 @@ Proof. exact step_refines_builtin. Qed.
 Print Assumptions refines_builtin_set.
 
 Theorem delta_law :
-  forall (vld : Z -> option Z) (s : list Z) (o : op) (rem add : list Z),
+  forall (vld : Z -> option Z) (s : list Z) (o : op) (rem add : list Z), not_detached o = true ->
     In (rem, add) (o_events (step vld s o)) ->
     (forall x, mem x rem = true -> mem x s = true) /\
     (forall x, mem x add = true -> mem x s = false) /\
@@ -32,14 +33,14 @@ Proof. exact step_delta. Qed.
 Print Assumptions delta_law.
 
 Theorem silent_iff_unchanged_and_single_event :
-  forall (vld : Z -> option Z) (s : list Z) (o : op),
+  forall (vld : Z -> option Z) (s : list Z) (o : op), not_detached o = true ->
     (seteq s (o_after (step vld s o)) = true -> o_events (step vld s o) = []) /\
     (seteq s (o_after (step vld s o)) = false -> exists ev, o_events (step vld s o) = [ev]).
 Proof. exact step_one_event_iff_changed. Qed.
 Print Assumptions silent_iff_unchanged_and_single_event.
 
 Theorem failing_op_inert :
-  forall (vld : Z -> option Z) (s : list Z) (o : op) (e : exn),
+  forall (vld : Z -> option Z) (s : list Z) (o : op) (e : exn), not_detached o = true ->
     o_out (step vld s o) = Raise e ->
     (forall x, mem x (o_after (step vld s o)) = mem x s) /\ o_events (step vld s o) = [].
 Proof. exact step_failing_inert. Qed.
@@ -51,6 +52,14 @@ Theorem xor_is_builtin_for_nonconverting_validators :
     forall x, mem x (o_after (step vld s (SymDiffUpdate l))) = xorb (mem x s) (mem x l).
 Proof. exact sdu_is_symmetric_difference. Qed.
 Print Assumptions xor_is_builtin_for_nonconverting_validators.
+
+(* The listed finding: a pickle round trip of a Set-trait value taken alone fails the copy clause, and only it
+   (the hypothesis [not_detached] of the theorems above excludes exactly this operation). *)
+Theorem detached_pickle_copy_refuted :
+  forall (vld : Z -> option Z) (s : list Z),
+    law_step vld s (Copy CopyPickleDetached) (step vld s (Copy CopyPickleDetached)) = [8].
+Proof. exact detached_copy_refuted. Qed.
+Print Assumptions detached_pickle_copy_refuted.
 
 (* Non-vacuity: a concrete history with a converting validator in which
    events are emitted, an operation fails, and a copy is taken. *)
